@@ -14,6 +14,7 @@ mod c03;
 mod c04;
 mod c06;
 mod c07;
+mod c08;
 mod scen;
 mod c10;
 mod c11;
@@ -63,6 +64,7 @@ fn main() {
         "C04" => c04::run(&args),
         "C06" => c06::run(&args),
         "C07" => c07::run(&args),
+        "C08" => c08::run(&args),
         "C10" => c10::run(&args),
         "C11" => c11::run(&args),
         "C12" => c12::run(&args),
@@ -122,6 +124,7 @@ fn replay(path: &str) -> i32 {
         "C04" => c04::replay(r),
         "C06" => c06::replay(r),
         "C07" => c07::replay(r),
+        "C08" => c08::replay(r),
         "C10" => c10::replay(r),
         "C11" => c11::replay(r),
         "C12" => c12::replay(r),
